@@ -148,7 +148,8 @@ fn gen_history(slot: usize, id: usize, seed: u64, slice: Slice, nops: usize, max
 }
 
 /// Delta-debug a failing history: keep removing ops while a failure for `prop` remains.
-pub fn shrink(hk: HKind, ops: &[(usize, Op)], prop: &str) -> Vec<(usize, Op)> {
+pub fn shrink(hk: HKind, ops: &[(usize, Op)], prop: &str, full: bool) -> Vec<(usize, Op)> {
+    let started = std::time::Instant::now();
     let fails_with = |o: &[(usize, Op)]| -> bool {
         let w = run_ops(hk, o, true);
         let r = w.fails.borrow().iter().any(|f| f.props.contains(&prop));
@@ -169,12 +170,16 @@ pub fn shrink(hk: HKind, ops: &[(usize, Op)], prop: &str) -> Vec<(usize, Op)> {
             }
         }
     }
+    if !full {
+        // many histories fail: the cut at the first failing operation is the replay
+        return cur;
+    }
     let mut chunk = (cur.len() / 2).max(1);
     let mut budget = 600;
-    while chunk >= 1 && budget > 0 {
+    while chunk >= 1 && budget > 0 && started.elapsed().as_secs() < 8 {
         let mut i = 0;
         let mut progressed = false;
-        while i < cur.len() && budget > 0 {
+        while i < cur.len() && budget > 0 && started.elapsed().as_secs() < 8 {
             let end = (i + chunk).min(cur.len());
             let mut cand = cur[..i].to_vec();
             cand.extend_from_slice(&cur[end..]);
@@ -338,6 +343,7 @@ fn cmd_run(args: &[String]) {
     // aggregate stats
     let mut total = Stats::default();
     let mut fails_json: Vec<String> = vec![];
+    let mut shrunk_fully = 0usize;
     let mut samples: Vec<String> = vec![];
     let mut hist_index: Vec<String> = vec![];
     for r in &results {
@@ -374,7 +380,8 @@ fn cmd_run(args: &[String]) {
                 let mut shrunk_len = r.ops.len();
                 let mut what = f.what.clone();
                 if !replay_dir.is_empty() {
-                    let small = shrink(r.hk, &r.ops, p);
+                    let small = shrink(r.hk, &r.ops, p, shrunk_fully < 6);
+                    shrunk_fully += 1;
                     shrunk_len = small.len();
                     let w2 = run_ops(r.hk, &small, true);
                     if let Some(f2) = w2.fails.borrow().iter().find(|x| x.props.contains(&p)) {
